@@ -21,6 +21,7 @@ import Cog.Drv.BuilderSemDrv
 import Cog.Drv.TotalDrv
 import Cog.Drv.SrcDenDrv
 import Cog.Drv.FrontDrv
+import Cog.Drv.FrontOaDrv
 open Cog.Drv
 
 def handle (line : String) : String :=
@@ -75,6 +76,9 @@ def handleIO (line : String) : IO String := do
   | "jsfdef" :: rest => jsfdefLine (" ".intercalate rest)
   | "jsfront" :: rest => jsfrontLine (" ".intercalate rest)
   | "jsfdoc" :: rest => jsfdocLine (" ".intercalate rest)
+  | "oafdef" :: rest => oafdefLine (" ".intercalate rest)
+  | "oafront" :: rest => oafrontLine (" ".intercalate rest)
+  | "oafdoc" :: rest => oafdocLine (" ".intercalate rest)
   | "srcpy" :: rest => srcpyLine (" ".intercalate rest)
   | "godefaults" :: rest => godefaultsLine (" ".intercalate rest)
   | "pydefaults" :: rest => pydefaultsLine (" ".intercalate rest)
